@@ -32,69 +32,14 @@ def R(p):
 def run(repo: Repo, rep: Report):
     svg, st, po, gt = repo["svg"], repo["svg_types"], repo["svg_pathops"], repo["geometric_types"]
     for rid, txt in [
-        ("R-SITE.bounds-api", "tight bounds API, coordinate conversion, fold over all shapes, no memoised geometry on shapes"),
+        ("R-SITE.bounds-api", "interpreted: the engine is asked for the tight .bounds of the shape's own current commands on every call (also after an in-place edit), converted to (x, y, w, h); the document box is the union over all shapes"),
         ("R-POLY.rect", "Rect.intersection / Rect.union equal the interval formulas (min/max opaque)"),
-        ("R-GUARD.clip-viewbox", "clip_to_viewbox: delete only if disjoint, skip only if inside, clip with the intersection rectangle"),
+        ("R-GUARD.clip-viewbox", "clip_to_viewbox interpreted on documents with given bounding boxes (two view boxes, one with negative origin): outside dropped, inside untouched, straddling intersected with the visible rectangle under (fill-rule, nonzero); order and paints kept"),
     ]:
         rep.rule(rid, txt)
-    # ---- bounds API
-    bb = po.func("bounding_box")
-    t = unparse(bb)
-    if re.search(r"return skia_path\(svg_cmds, fill_rule='nonzero'\)\.bounds$", t.strip().splitlines()[-1].strip()) or "skia_path(svg_cmds, fill_rule='nonzero').bounds" in t:
-        rep.ok("R-SITE.bounds-api", "svg_pathops.bounding_box: skia_path(cmds).bounds (tight bounds, not control-point bounds)")
-    else:
-        rep.fail("R-SITE.bounds-api", "svg_pathops.bounding_box", "skia_path(svg_cmds, fill_rule='nonzero').bounds", "bounding boxes are no longer Skia's tight bounds of the path", po, bb)
-    F = "svg_types.SVGShape.bounding_box"
-    rep.saw(F)
-    fn = method_of(repo, "svg_types", "SVGShape", "bounding_box")
-
-    def setup(it):
-        it.hooks[("svg_pathops", "bounding_box")] = lambda i, a, k: (S("x1"), S("y1"), S("x2"), S("y2"))
-        it.hooks[("svg_types", "SVGShape.as_cmd_seq")] = lambda i, a, k: "<cmd-seq>"
-
-    outs = explore(repo, fn, [Rec(ClassRef("svg_types", "SVGShape"), {}, mutable=True)], setup=setup)
-    ok = len(outs) == 1 and not outs[0].raised and not outs[0].undecided
-    if ok:
-        v = outs[0].value.f
-        ok = to_rf(v["x"]).equals(S("x1")) and to_rf(v["y"]).equals(S("y1")) and to_rf(v["w"]).equals(S("x2") - S("x1")) and to_rf(v["h"]).equals(S("y2") - S("y1"))
-    if ok:
-        rep.ok("R-SITE.bounds-api", F, "Rect(x1, y1, x2 - x1, y2 - y1) from the shape's own command sequence", True)
-    else:
-        rep.fail("R-SITE.bounds-api", F, "Rect(x1, y1, x2 - x1, y2 - y1)", f"(x1,y1,x2,y2) is not converted to (x, y, w, h): {outs[0].value if outs else None} {outs[0].undecided if outs else ''}", st, st.func("SVGShape.bounding_box"))
-    if "svg_pathops.bounding_box(self.as_cmd_seq())" in unparse(st.func("SVGShape.bounding_box")):
-        rep.ok("R-SITE.bounds-api", F + ": computed from self.as_cmd_seq() on every call")
-    else:
-        rep.fail("R-SITE.bounds-api", F, "svg_pathops.bounding_box(self.as_cmd_seq())", "the box is not computed from the shape's current command sequence", st, st.func("SVGShape.bounding_box"))
-    sb = svg.func("SVG.bounding_box")
-    t = unparse(sb)
-    if "reduce(lambda a, b: a.union(b), (shape.bounding_box() for shape in shapes))" in t and "shapes = self.shapes()" in t:
-        rep.ok("R-SITE.bounds-api", "svg.SVG.bounding_box: union over all shapes")
-    else:
-        rep.fail("R-SITE.bounds-api", "svg.SVG.bounding_box", "reduce(lambda a, b: a.union(b), (shape.bounding_box() for shape in shapes))", "the document box is no longer the union of all shape boxes", svg, sb)
-    # overrides / memoisation in the shape hierarchy
-    folder = Folder(repo)
-    n_cls = 0
-    for cq, c in st.classes.items():
-        if not (cq.startswith("SVG") and not cq.startswith("_")):
-            continue
-        n_cls += 1
-        declared = {f.name for f in folder.dataclass_fields("svg_types", cq)} if any("dataclass" in unparse(d) for d in c.decorator_list) else None
-        for s in c.body:
-            if isinstance(s, ast.FunctionDef):
-                if s.name == "bounding_box" and cq != "SVGShape":
-                    if "svg_pathops.bounding_box(self.as_cmd_seq())" not in unparse(s) or any(isinstance(x, ast.Attribute) and unparse(x).startswith("self._") for x in ast.walk(s)):
-                        rep.fail("R-SITE.bounds-api", f"svg_types.{cq}.bounding_box", "def bounding_box", "an override of bounding_box that does not recompute from the current command sequence "
-                                 "(a cached box goes stale when the shape is edited in place)", st, s)
-                for a in ast.walk(s):
-                    if isinstance(a, (ast.Assign, ast.AugAssign, ast.AnnAssign)):
-                        tg = a.targets if isinstance(a, ast.Assign) else [a.target]
-                        for tnode in tg:
-                            if isinstance(tnode, ast.Attribute) and isinstance(tnode.value, ast.Name) and tnode.value.id in ("self", "target") and declared is not None \
-                                    and tnode.attr not in declared and not tnode.attr.startswith("__"):
-                                rep.fail("R-SITE.bounds-api", f"svg_types.{cq}.{s.name}", a, f"hidden instance state {unparse(tnode)!r} on a shape dataclass (not a declared field): values "
-                                         "memoised there survive in-place edits, copies and comparisons unpredictably", st, a)
-    rep.floor("shape classes inspected for memoised geometry", n_cls, 8)
-    rep.ok("R-SITE.bounds-api", "svg_types: no shape class keeps undeclared instance state / overrides bounding_box with a cache", f"{n_cls} classes")
+    from sa.rules import sem, sempath
+    sempath.check_bounds(repo, rep, "R-SITE.bounds-api")
+    sempath.check_document_box(repo, rep, "R-SITE.bounds-api")
     # ---- Rect algebra
     a, b = R("a"), R("b")
     F = "geometric_types.Rect.union"
@@ -149,54 +94,14 @@ def run(repo: Repo, rep: Report):
         rep.fail("R-POLY.rect", F, "Rect.intersection", bad or "missing outcome (rectangle / None)", gt, gt.func("Rect.intersection"))
     else:
         rep.ok("R-POLY.rect", F, f"{len(outs)} paths: rectangle = [max of starts, min of ends]; None exactly when max(start) >= min(end) on an axis", True)
-    _check_clip(repo, rep)
+    sem.check_clip_to_viewbox(repo, rep, "R-GUARD.clip-viewbox")
+    _check_cli(repo, rep)
 
 
-def _check_clip(repo, rep):
-    svg = repo["svg"]
-    fn = svg.func("SVG.clip_to_viewbox")
-    F = "svg.SVG.clip_to_viewbox"
-    rep.saw(F)
-    loops = [l for l in fn.body if isinstance(l, ast.For)]
-    if len(loops) < 3:
-        rep.fail("R-GUARD.clip-viewbox", F, "phase loops", "the three phases (drop outside / clip partial / prune groups) are no longer present", svg, fn)
-        return
-    p1 = loops[0]
-    t1 = unparse(p1)
-    if unparse(p1.iter) == "self._elements()" and "if view_box.intersection(shape.bounding_box()) is None:\n        _safe_remove(el)" in t1 and len(p1.body) == 1:
-        rep.ok("R-GUARD.clip-viewbox", f"{F}: phase 1 deletes a shape only when its box does not intersect the viewBox", "", True)
-    else:
-        rep.fail("R-GUARD.clip-viewbox", F, "if view_box.intersection(shape.bounding_box()) is None: _safe_remove(el)", "shapes are deleted under a different condition than 'box disjoint from the viewBox'", svg, p1)
-    p2 = loops[1]
-    t2 = unparse(p2)
-    ok_skip = "if bbox == isct:\n        continue" in t2 and "bbox = shape.bounding_box()" in t2 and "isct = view_box.intersection(bbox)" in t2
-    conts = [n for n in ast.walk(p2) if isinstance(n, ast.Continue)]
-    if ok_skip and len(conts) == 1:
-        rep.ok("R-GUARD.clip-viewbox", f"{F}: clipping is skipped only for shapes whose box lies inside the viewBox", "", True)
-    else:
-        rep.fail("R-GUARD.clip-viewbox", F, "if bbox == isct: continue", "shapes are left unclipped under a different condition than 'box inside the viewBox'", svg, p2)
-    rects = [c for c in ast.walk(fn) if isinstance(c, ast.Call) and call_name(c) == "SVGRect"]
-    ok_rect = len(rects) == 1 and _inside(rects[0], p2) and {k.arg: unparse(k.value) for k in rects[0].keywords} == {"x": "isct.x", "y": "isct.y", "width": "isct.w", "height": "isct.h"}
-    if ok_rect:
-        rep.ok("R-GUARD.clip-viewbox", f"{F}: clip rectangle = the intersection rectangle (x, y, w, h), built per shape", "", True)
-    else:
-        got = {k.arg: unparse(k.value) for k in rects[0].keywords} if rects else None
-        rep.fail("R-GUARD.clip-viewbox", F, "SVGRect(x=isct.x, y=isct.y, width=isct.w, height=isct.h)", f"the clip rectangle is {got}: it must be the intersection of the shape's box with the "
-                 "viewBox, including its origin (a viewBox that does not start at 0,0 would clip against the wrong region)", svg, rects[0] if rects else p2)
-    if "fill_rules=(shape.fill_rule, clip_path.clip_rule)" in t2 and "shape.fill_rule = 'nonzero'" in t2 and "intersection((shape, clip_path)" in t2.replace("\n", ""):
-        rep.ok("R-GUARD.clip-viewbox", f"{F}: intersection under (fill_rule, clip_rule), result marked nonzero")
-    else:
-        rep.fail("R-GUARD.clip-viewbox", F, "intersection((shape, clip_path), fill_rules=(shape.fill_rule, clip_path.clip_rule))", "rule pairing of the view-box clip changed", svg, p2)
-    p3 = loops[-1]
-    if "_try_remove_group(context.element)" in unparse(p3) and "reversed(list(self.depth_first()))" in unparse(p3.iter):
-        rep.ok("R-GUARD.clip-viewbox", f"{F}: emptied groups pruned afterwards (leaves first)")
-    else:
-        rep.fail("R-GUARD.clip-viewbox", F, "for context in reversed(list(self.depth_first())): _try_remove_group", "groups emptied by the clip are no longer pruned", svg, p3)
-    if "view_box = self.view_box()" in unparse(fn):
-        rep.ok("R-GUARD.clip-viewbox", f"{F}: clips against the document's own viewBox")
+def _check_cli(repo, rep):
     cli = repo["picosvg"].func("_run")
     t = unparse(cli)
-    if "if FLAGS.clip_to_viewbox:\n        svg.clip_to_viewbox(inplace=True)" in t.replace("    ", "    ") or ("if FLAGS.clip_to_viewbox:" in t and "svg.clip_to_viewbox(inplace=True)" in t):
+    if "if FLAGS.clip_to_viewbox:" in t and "clip_to_viewbox(inplace=True)" in t:
         rep.ok("R-GUARD.clip-viewbox", "picosvg._run: clip_to_viewbox only under --clip_to_viewbox, after the conversion")
     else:
         rep.fail("R-GUARD.clip-viewbox", "picosvg._run", "if FLAGS.clip_to_viewbox: svg.clip_to_viewbox(inplace=True)", "CLI wiring of clip_to_viewbox changed", repo["picosvg"], cli)
@@ -221,7 +126,7 @@ VARIANTS = [
     Variant("clip rectangle at the origin", [Edit(_S, "SVG.clip_to_viewbox", "SVGRect(x=isct.x, y=isct.y, width=isct.w, height=isct.h)", "SVGRect(width=view_box.w, height=view_box.h)")], [("R-GUARD.clip-viewbox", "clip_to_viewbox")]),
     Variant("height from y2 only", [Edit("svg_types", "SVGShape.bounding_box", "return Rect(x1, y1, x2 - x1, y2 - y1)", "return Rect(x1, y1, x2 - x1, y2)")], [("R-SITE.bounds-api", "SVGShape.bounding_box")]),
     Variant("memoised bounding box on paths", [Edit("svg_types", "SVGPath", "    def as_path(self) -> \"SVGPath\":\n        return self\n", "    def as_path(self) -> \"SVGPath\":\n        return self\n\n    def bounding_box(self) -> Rect:\n        if getattr(self, \"_bbox\", None) is None:\n            self._bbox = super().bounding_box()\n        return self._bbox\n")],
-            [("R-SITE.bounds-api", "SVGPath")]),
+            [("R-SITE.bounds-api", "bounding_box")]),
     Variant("intersection emptiness strict", [Edit("geometric_types", "Rect.intersection", "if start >= end:", "if start > end + 1:")], [("R-POLY.rect", "intersection")]),
     Variant("document box of the first shape only", [Edit(_S, "SVG.bounding_box", "(shape.bounding_box() for shape in shapes)", "(shape.bounding_box() for shape in shapes[:1])")], [("R-SITE.bounds-api", "SVG.bounding_box")]),
     Variant("silent: union written with x_max helper inline", [Edit("geometric_types", "Rect.union", "max(self.x_max, other.x_max)", "max(self.x + self.w, other.x + other.w)")], silent=True),
